@@ -5,10 +5,10 @@ use hvt::util as hutil;
 #[path = "../../../harness/src/bin/staticfs_common/mod.rs"]
 mod common;
 
-use common::{leak, request, Backend};
+use common::{leak, Backend};
 use humphrey::handler_traits::{PathAwareRequestHandler, RequestHandler};
 use humphrey::handlers::{serve_as_file_path, serve_dir, serve_file};
-use humphrey::http::Response;
+use humphrey::http::{Request, Response};
 use std::sync::Arc;
 
 struct Async {
@@ -38,8 +38,11 @@ impl Backend for Async {
     fn handlers() -> &'static [&'static str] {
         &["serve_dir", "file_path", "serve_file"]
     }
-    fn call(&self, h: &str, route: &str, uri: &str, alt: bool) -> Response {
-        let req = request(uri);
+    fn parse(&self, wire: &[u8]) -> Option<Request> {
+        let mut r: &[u8] = wire;
+        self.rt.block_on(Request::from_stream(&mut r, "127.0.0.1:4242".parse().unwrap())).ok()
+    }
+    fn call(&self, h: &str, route: &str, req: Request, alt: bool) -> Response {
         let route: &'static str = leak_route(route);
         let fut = match h {
             "serve_dir" => if alt { self.sd_slash.serve(req, self.unit.clone(), route) } else { self.sd.serve(req, self.unit.clone(), route) },
